@@ -8,8 +8,9 @@
    stiffness matrices, orientations, fractions and phase fractions; `flat_res` lays the list of result
    matrices out as the (ns, 6, 6) block the code returns, errors are compared as such.
    An edit of voigt_averages / StiffnessTensors.__iter__ changes Gen_voigt.v and these proofs stop compiling.
-   This file: tactics, the one-mineral configurations and the validation branches; the two-mineral
-   configurations are in Inst_voigt_a0 / _a1 / _a01 / _a10 (built in parallel). *)
+   This file: tactics, the validation branches and the one-mineral configurations of assemblage [olivine]; the other
+   configurations are in Inst_voigt_m1_a1 / _m1_a01 / _m1_a10 (one mineral) and Inst_voigt_a0 / _a0_b / _a1 / _a01 / _a10 (two
+   minerals), small files that build in parallel (each under 3 CPU-minutes and 2 GB). *)
 From Coq Require Import Reals ZArith List Bool Lra Lia Arith.
 From PV Require Import Num NumR Model_voigt Proofs_tensors_alg Proofs_tensors_rot Inst_tensors.
 From PV.gen Require Import Gen_tensors Gen_voigt.
@@ -149,7 +150,10 @@ Ltac rhs_no_members :=
       end
   end.
 
-Ltac leaf := rhs_no_members; grain_eval; first [ reflexivity | ok_leaf ].
+Ltac leaf :=
+  rhs_no_members; grain_eval;
+  first [ reflexivity | ok_leaf
+        | fail 1 "this path of the generated voigt_averages configuration is not the list model Model_voigt.voigt_averages (another value, another error, or another branch structure)" ].
 
 Ltac voigt_tac :=
   model_eval;
@@ -157,67 +161,6 @@ Ltac voigt_tac :=
   | |- context [Z.eqb ?ph 0] => is_var ph; split_phase ph
   end;
   leaf.
-
-(* ---- one mineral ---- *)
-Lemma voigt_inst_a0_m1_s1_g1 (ph0 : Z) (phis Sol Sen O0 F0 : RA) :
-  @k_voigt_a0_m1_s1_g1 NumR ph0 phis Sol Sen O0 F0 =
-  flat_res (@voigt_averages NumR [mk_min ph0 1 1 1 1 O0 F0] [0%Z] (arr_to_list 1 phis) [Sol; Sen]).
-Proof. cbv beta delta [k_voigt_a0_m1_s1_g1]. voigt_tac. Qed.
-
-Lemma voigt_inst_a0_m1_s2_g1 (ph0 : Z) (phis Sol Sen O0 F0 : RA) :
-  @k_voigt_a0_m1_s2_g1 NumR ph0 phis Sol Sen O0 F0 =
-  flat_res (@voigt_averages NumR [mk_min ph0 1 2 2 1 O0 F0] [0%Z] (arr_to_list 1 phis) [Sol; Sen]).
-Proof. cbv beta delta [k_voigt_a0_m1_s2_g1]. voigt_tac. Qed.
-
-Lemma voigt_inst_a0_m1_s1_g2 (ph0 : Z) (phis Sol Sen O0 F0 : RA) :
-  @k_voigt_a0_m1_s1_g2 NumR ph0 phis Sol Sen O0 F0 =
-  flat_res (@voigt_averages NumR [mk_min ph0 2 1 1 2 O0 F0] [0%Z] (arr_to_list 1 phis) [Sol; Sen]).
-Proof. cbv beta delta [k_voigt_a0_m1_s1_g2]. voigt_tac. Qed.
-
-Lemma voigt_inst_a1_m1_s1_g1 (ph0 : Z) (phis Sol Sen O0 F0 : RA) :
-  @k_voigt_a1_m1_s1_g1 NumR ph0 phis Sol Sen O0 F0 =
-  flat_res (@voigt_averages NumR [mk_min ph0 1 1 1 1 O0 F0] [1%Z] (arr_to_list 1 phis) [Sol; Sen]).
-Proof. cbv beta delta [k_voigt_a1_m1_s1_g1]. voigt_tac. Qed.
-
-Lemma voigt_inst_a1_m1_s2_g1 (ph0 : Z) (phis Sol Sen O0 F0 : RA) :
-  @k_voigt_a1_m1_s2_g1 NumR ph0 phis Sol Sen O0 F0 =
-  flat_res (@voigt_averages NumR [mk_min ph0 1 2 2 1 O0 F0] [1%Z] (arr_to_list 1 phis) [Sol; Sen]).
-Proof. cbv beta delta [k_voigt_a1_m1_s2_g1]. voigt_tac. Qed.
-
-Lemma voigt_inst_a1_m1_s1_g2 (ph0 : Z) (phis Sol Sen O0 F0 : RA) :
-  @k_voigt_a1_m1_s1_g2 NumR ph0 phis Sol Sen O0 F0 =
-  flat_res (@voigt_averages NumR [mk_min ph0 2 1 1 2 O0 F0] [1%Z] (arr_to_list 1 phis) [Sol; Sen]).
-Proof. cbv beta delta [k_voigt_a1_m1_s1_g2]. voigt_tac. Qed.
-
-Lemma voigt_inst_a01_m1_s1_g1 (ph0 : Z) (phis Sol Sen O0 F0 : RA) :
-  @k_voigt_a01_m1_s1_g1 NumR ph0 phis Sol Sen O0 F0 =
-  flat_res (@voigt_averages NumR [mk_min ph0 1 1 1 1 O0 F0] [0%Z; 1%Z] (arr_to_list 2 phis) [Sol; Sen]).
-Proof. cbv beta delta [k_voigt_a01_m1_s1_g1]. voigt_tac. Qed.
-
-Lemma voigt_inst_a01_m1_s2_g1 (ph0 : Z) (phis Sol Sen O0 F0 : RA) :
-  @k_voigt_a01_m1_s2_g1 NumR ph0 phis Sol Sen O0 F0 =
-  flat_res (@voigt_averages NumR [mk_min ph0 1 2 2 1 O0 F0] [0%Z; 1%Z] (arr_to_list 2 phis) [Sol; Sen]).
-Proof. cbv beta delta [k_voigt_a01_m1_s2_g1]. voigt_tac. Qed.
-
-Lemma voigt_inst_a01_m1_s1_g2 (ph0 : Z) (phis Sol Sen O0 F0 : RA) :
-  @k_voigt_a01_m1_s1_g2 NumR ph0 phis Sol Sen O0 F0 =
-  flat_res (@voigt_averages NumR [mk_min ph0 2 1 1 2 O0 F0] [0%Z; 1%Z] (arr_to_list 2 phis) [Sol; Sen]).
-Proof. cbv beta delta [k_voigt_a01_m1_s1_g2]. voigt_tac. Qed.
-
-Lemma voigt_inst_a10_m1_s1_g1 (ph0 : Z) (phis Sol Sen O0 F0 : RA) :
-  @k_voigt_a10_m1_s1_g1 NumR ph0 phis Sol Sen O0 F0 =
-  flat_res (@voigt_averages NumR [mk_min ph0 1 1 1 1 O0 F0] [1%Z; 0%Z] (arr_to_list 2 phis) [Sol; Sen]).
-Proof. cbv beta delta [k_voigt_a10_m1_s1_g1]. voigt_tac. Qed.
-
-Lemma voigt_inst_a10_m1_s2_g1 (ph0 : Z) (phis Sol Sen O0 F0 : RA) :
-  @k_voigt_a10_m1_s2_g1 NumR ph0 phis Sol Sen O0 F0 =
-  flat_res (@voigt_averages NumR [mk_min ph0 1 2 2 1 O0 F0] [1%Z; 0%Z] (arr_to_list 2 phis) [Sol; Sen]).
-Proof. cbv beta delta [k_voigt_a10_m1_s2_g1]. voigt_tac. Qed.
-
-Lemma voigt_inst_a10_m1_s1_g2 (ph0 : Z) (phis Sol Sen O0 F0 : RA) :
-  @k_voigt_a10_m1_s1_g2 NumR ph0 phis Sol Sen O0 F0 =
-  flat_res (@voigt_averages NumR [mk_min ph0 2 1 1 2 O0 F0] [1%Z; 0%Z] (arr_to_list 2 phis) [Sol; Sen]).
-Proof. cbv beta delta [k_voigt_a10_m1_s1_g2]. voigt_tac. Qed.
 
 (* ---- validation branches, shapes that raise ---- *)
 Lemma voigt_inst_bad_ngrains (ph0 ph1 : Z) (phis Sol Sen O0 F0 O1 F1 : RA) :
@@ -249,3 +192,19 @@ Lemma voigt_inst_ngrains_attr_larger (ph0 : Z) (phis Sol Sen O0 F0 : RA) :
   @k_voigt_ngrains_attr_larger NumR ph0 phis Sol Sen O0 F0 =
   flat_res (@voigt_averages NumR [mk_min ph0 2 1 1 1 O0 F0] [0%Z] (arr_to_list 1 phis) [Sol; Sen]).
 Proof. cbv beta delta [k_voigt_ngrains_attr_larger]. voigt_tac. Qed.
+
+(* ---- one mineral, assemblage [olivine] ---- *)
+Lemma voigt_inst_a0_m1_s1_g1 (ph0 : Z) (phis Sol Sen O0 F0 : RA) :
+  @k_voigt_a0_m1_s1_g1 NumR ph0 phis Sol Sen O0 F0 =
+  flat_res (@voigt_averages NumR [mk_min ph0 1 1 1 1 O0 F0] [0%Z] (arr_to_list 1 phis) [Sol; Sen]).
+Proof. cbv beta delta [k_voigt_a0_m1_s1_g1]. voigt_tac. Qed.
+
+Lemma voigt_inst_a0_m1_s2_g1 (ph0 : Z) (phis Sol Sen O0 F0 : RA) :
+  @k_voigt_a0_m1_s2_g1 NumR ph0 phis Sol Sen O0 F0 =
+  flat_res (@voigt_averages NumR [mk_min ph0 1 2 2 1 O0 F0] [0%Z] (arr_to_list 1 phis) [Sol; Sen]).
+Proof. cbv beta delta [k_voigt_a0_m1_s2_g1]. voigt_tac. Qed.
+
+Lemma voigt_inst_a0_m1_s1_g2 (ph0 : Z) (phis Sol Sen O0 F0 : RA) :
+  @k_voigt_a0_m1_s1_g2 NumR ph0 phis Sol Sen O0 F0 =
+  flat_res (@voigt_averages NumR [mk_min ph0 2 1 1 2 O0 F0] [0%Z] (arr_to_list 1 phis) [Sol; Sen]).
+Proof. cbv beta delta [k_voigt_a0_m1_s1_g2]. voigt_tac. Qed.
